@@ -654,7 +654,7 @@ static void build(vf::Plan &plan, const vf::Opts &o)
                            const unsigned char NB[3] = {(unsigned char)(ch ^ 1), (unsigned char)(ch ^ 0x80), (unsigned char)(ch + 1)};
                            if (pos < L) h[pos] = (char)ch;
                            for (unsigned j = 1; j <= run && pos + j < L; ++j) h[pos + j] = (char)NB[nb];
-                           if (pos >= 2) h[pos - 2] = (char)NB[nb];
+                           if (pos >= 2 && pos - 2 < L) h[pos - 2] = (char)NB[nb];
                        }
                        ST::string s = mkst(h);
                        const size_t n = h.size();
